@@ -667,7 +667,9 @@ class DynamicalAnnealer:
     def setup_annealing(self, betas):
         """Calculates the initial log diffs between temperature levels"""
         self._S = numpy.log(numpy.diff(1.0/betas[:-1]))
-        if self._Tmax_prior:
+        # with a single temperature there is nothing to anneal, and the only
+        # beta is also the coldest one, which stays fixed
+        if self._Tmax_prior and len(betas) > 1:
             betas[-1] = 0.0
 
     @property
